@@ -19,12 +19,12 @@ import (
 //	mode 3: block-edge hunting: lengths that end 1 byte before/at/after a multiple of Edge
 //	mode 4: fixed small chunk (seed%97+1)
 type Slicer struct {
-	Mode int
-	Edge int
-	rng  *Rng
-	seed uint64
-	pos  int64
-	Cuts int // number of transfers that were shortened
+	Mode    int
+	Edge    int
+	rng     *Rng
+	seed    uint64
+	pos     int64
+	Cuts    int // number of transfers that were shortened
 	MaxCuts int
 }
 
@@ -93,7 +93,7 @@ type Pool struct {
 
 	Slice    *Slicer // nil: full reads
 	Yield    func(site string)
-	FailRead int   // >0: the FailRead-th Read returns ErrInjected
+	FailRead int                // >0: the FailRead-th Read returns ErrInjected
 	OnRead   func(ev ReadEvent) // called before each read (scheduler actions, mid-run damage)
 	Record   bool
 	EOFWith  bool // deliver io.EOF together with the last bytes of a file (legal io.Reader behaviour)
@@ -102,6 +102,16 @@ type Pool struct {
 	History []ReadEvent
 	reads   int
 	Faults  int
+	lastRS  *poolReader
+}
+
+func sameReader(a, b io.ReadSeeker) (same bool) {
+	defer func() {
+		if recover() != nil {
+			same = false
+		}
+	}()
+	return a == b
 }
 
 var ErrInjected = errors.New("sim: injected I/O error")
@@ -147,7 +157,16 @@ func (p *Pool) GetReadSeeker(i int64) (io.ReadSeeker, error) {
 		return nil, err
 	}
 	off, _ := rs.Seek(0, io.SeekCurrent)
-	return &poolReader{p: p, rs: rs, idx: i, off: off}, nil
+	// like the pools wharf ships, hand out the same object as long as the underlying reader is the
+	// same one (callers may, rightly or wrongly, remember it)
+	p.mu.Lock()
+	defer p.mu.Unlock()
+	if p.lastRS != nil && sameReader(p.lastRS.rs, rs) {
+		p.lastRS.off = off
+		return p.lastRS, nil
+	}
+	p.lastRS = &poolReader{p: p, rs: rs, idx: i, off: off}
+	return p.lastRS, nil
 }
 
 func (p *Pool) Close() error {
